@@ -3443,14 +3443,31 @@ impl PeerConnection {
             // synchronously when setup_direct_rtp_offer is called.
             return;
         }
+        let mut peer_rx = self.subscribe_peer_state();
+        if *peer_rx.borrow_and_update() == PeerConnectionState::Closed {
+            // Nothing gathers on a closed connection (the ICE runner is gone).
+            return;
+        }
         let _ = self.inner.ice_transport.start_gathering();
         let mut rx = self.subscribe_ice_gathering_state();
         loop {
             if *rx.borrow_and_update() == IceGatheringState::Complete {
                 return;
             }
-            if rx.changed().await.is_err() {
+            if *peer_rx.borrow_and_update() == PeerConnectionState::Closed {
                 return;
+            }
+            tokio::select! {
+                res = rx.changed() => {
+                    if res.is_err() {
+                        return;
+                    }
+                }
+                res = peer_rx.changed() => {
+                    if res.is_err() {
+                        return;
+                    }
+                }
             }
         }
     }
